@@ -86,6 +86,15 @@ class Index:
                     out.append((r, val))
         return [r for r, _ in out]
 
+    def cycle_marks(self, uid: str) -> list[int]:
+        """Positions (g) where a handling cycle of this object was closed: last-handled state stored, or released at deletion."""
+        marks = [cw.g for cw in self.closing_writes(uid)]
+        for fr in self.finalizer_removals(uid):
+            before = self.w.body_at(uid, fr.prev_rv)
+            if before is not None and before['metadata'].get('deletionTimestamp'):
+                marks.append(fr.g)
+        return sorted(marks)
+
     def finalizer_removals(self, uid: str) -> list[Any]:
         out = []
         for r in self.writes:
@@ -134,10 +143,9 @@ def oracle_progress(w: World, ix: Index | None = None) -> list[dict[str, Any]]:
             name = w.history[uid][0]['body']['metadata'].get('name')
             if any(r.kind == 'patch' and r.name == name and r.status != 200 for r in w.requests):
                 continue   # an attempt whose record could not be written (404/422) is legitimately not "recorded"
-            closes_g = [cw.g for cw in ix.closing_writes(uid)] + [fr.g for fr in ix.finalizer_removals(uid)]
             attempts: dict[str, int] = {}
             last_reason: dict[str, str] = {}
-            marks = sorted(closes_g)
+            marks = ix.cycle_marks(uid)
             mi = 0
             for e in w.events:
                 if e.get('uid') != uid or e['k'] not in ('call', 'ret') or e.get('kind') not in CHANGING:
